@@ -33,6 +33,7 @@ func runC08(c *Ctx) {
 	r.Rule("X5", "`|` returns its own context around the right side's results", 2)
 	checkN1(c, "X5")
 	ruleX6(c, "X6")
+	ruleBindCopies(c, "X7")
 	r.Assume("expression strings parsed at run time from constants (array_to_map, PrettyPrintExp) are not visible to the IR")
 	r.Assume("third-party functions do not store into CandidateNode fields (they do not know the type); reflection-based copier.Copy is only applied to preference structs")
 }
